@@ -193,4 +193,77 @@ theorem packs_sound (pend : List (Nat × Option Int)) (kind : PackKind) :
   have : ov.2 = g.1 := by simpa using hf.2
   rw [← this]; exact hf.1
 
+/-! ### every requested order ends up in exactly one package (multiset form) -/
+
+theorem gstep_perm (acc : List (Option Int × List Nat)) (ov : Nat × Option Int) (hn : (keys acc).Nodup) :
+    ((gstep acc ov).flatMap (·.2)).Perm (acc.flatMap (·.2) ++ [ov.1]) := by
+  unfold gstep
+  split
+  · rename_i hany
+    induction acc with
+    | nil => simp at hany
+    | cons g gs ih =>
+      simp only [keys, List.map_cons, List.nodup_cons] at hn
+      rw [List.map_cons, List.flatMap_cons, List.flatMap_cons]
+      by_cases e : g.1 = ov.2
+      · rw [if_pos e]
+        have hrest : gs.map (fun g => if g.1 = ov.2 then (g.1, g.2 ++ [ov.1]) else g) = gs := by
+          have : ∀ x ∈ gs, (if x.1 = ov.2 then (x.1, x.2 ++ [ov.1]) else x) = x := by
+            intro x hx
+            split
+            · rename_i ex
+              exfalso; apply hn.1
+              rw [e, ← ex]; exact List.mem_map.mpr ⟨x, hx, rfl⟩
+            · rfl
+          calc gs.map (fun g => if g.1 = ov.2 then (g.1, g.2 ++ [ov.1]) else g) = gs.map id := List.map_congr_left this
+            _ = gs := List.map_id _
+        rw [hrest]
+        show ((g.2 ++ [ov.1]) ++ gs.flatMap (·.2)).Perm ((g.2 ++ gs.flatMap (·.2)) ++ [ov.1])
+        rw [List.append_assoc, List.append_assoc]
+        exact List.Perm.append_left g.2 List.perm_append_comm
+      · rw [if_neg e]
+        have hany' : gs.any (fun x => decide (x.1 = ov.2)) = true := by
+          rw [List.any_cons] at hany
+          simp only [e, decide_false, Bool.false_or] at hany
+          exact hany
+        have := ih (by simpa [keys] using hn.2) hany'
+        rw [List.append_assoc]
+        exact List.Perm.append_left g.2 this
+  · rw [List.flatMap_append]
+    simp
+
+theorem foldl_gstep_perm (l : List (Nat × Option Int)) (acc : List (Option Int × List Nat)) (h : (keys acc).Nodup) :
+    ((l.foldl gstep acc).flatMap (·.2)).Perm (acc.flatMap (·.2) ++ l.map (·.1)) := by
+  induction l generalizing acc with
+  | nil => simp
+  | cons ov l ih =>
+    rw [List.foldl_cons]
+    refine (ih (gstep acc ov) (gstep_nodup acc ov h)).trans ?_
+    rw [List.map_cons]
+    have := (gstep_perm acc ov h).append_right (l.map (·.1))
+    simpa [List.append_assoc] using this
+
+theorem groupByVersion_perm (l : List (Nat × Option Int)) : ((groupByVersion l).flatMap (·.2)).Perm (l.map (·.1)) := by
+  rw [groupByVersion_eq]
+  simpa using foldl_gstep_perm l [] (by simp [keys])
+
+/-- the packages of a pending list hold exactly the orders of the list, each as often as it was requested -/
+theorem packs_perm (pend : List (Nat × Option Int)) (kind : PackKind) :
+    ((packsOf pend kind).flatMap (·.2)).Perm (pend.map (·.1)) := by
+  unfold packsOf
+  have h : ∀ gs : List (Option Int × List Nat),
+      (gs.flatMap fun (g : Option Int × List Nat) => (chunks g.2 (packLimit kind)).map fun ch => (g.1, ch)).flatMap (·.2) = gs.flatMap (·.2) := by
+    intro gs
+    induction gs with
+    | nil => rfl
+    | cons g gs ih =>
+      rw [List.flatMap_cons, List.flatMap_append, ih, List.flatMap_cons]
+      congr 1
+      rw [List.flatMap_map]
+      show (chunks g.2 (packLimit kind)).flatMap (fun ch => ch) = g.2
+      rw [List.flatMap_id']; exact chunks_flatten _ _
+  rw [h]
+  exact groupByVersion_perm pend
+
+
 end Flumine.Packs
